@@ -126,7 +126,8 @@ def opVisit (d : Document) (n : Tree) (a : Json) : Except String Json := do
   let algo ← getStr a "algo"
   let m : Tree → Bool := fun t => t.kind == kind
   -- the harness links a build with debug assertions
-  if algo == "post" then pure (tmJson (Post.visit true re named m n))
+  -- the repaired `calibrate_for_match` (no early return after a match); `Post.visit` = pinned v0.37.0
+  if algo == "post" then pure (tmJson (Post.visitFixed true re named m n))
   else pure (tmJson (Pre.visit re named m n))
 
 def posJson (d : Document) (n : Tree) : Json :=
